@@ -5,7 +5,9 @@ import (
 	"crypto/sha256"
 	"encoding/json"
 	"fmt"
+	"os"
 	"runtime"
+	"sync"
 
 	"github.com/foxglove/mcap/go/mcap"
 	"pgregory.net/rapid"
@@ -49,7 +51,11 @@ type c13Extra struct {
 
 func (p *c13) Draw(t *rapid.T, tier string) *runner.Scenario {
 	lim := gen.Limits{MaxOps: 30, MaxPayload: 600, MaxTotal: 8000}
-	ex := c13Extra{Clause: pick(t, "clause", "map_order", "map_order", "gomaxprocs", "interference", "interference")}
+	clauses := []string{"map_order", "map_order", "gomaxprocs", "interference", "interference", "free_running"}
+	if only := os.Getenv("VERIF_C13_CLAUSE"); only != "" {
+		clauses = []string{only}
+	}
+	ex := c13Extra{Clause: pick(t, "clause", clauses...)}
 	switch ex.Clause {
 	case "map_order", "gomaxprocs":
 		wl := gen.Workload(t, lim)
@@ -63,6 +69,11 @@ func (p *c13) Draw(t *rapid.T, tier string) *runner.Scenario {
 	default:
 		n := rapid.IntRange(2, 8).Draw(t, "n_tasks")
 		small := gen.Limits{MaxOps: 14, MaxPayload: 300, MaxTotal: 3000, NoCustom: false}
+		if ex.Clause == "free_running" {
+			// more work per task so that the goroutines really overlap; many map keys
+			n = rapid.IntRange(4, 12).Draw(t, "n_tasks_free")
+			small = gen.Limits{MaxOps: 40, MaxPayload: 400, MaxTotal: 12000, CheapCodecs: true}
+		}
 		for i := 0; i < n; i++ {
 			tk := c13Task{Kind: pick(t, "task_kind", "writer", "writer", "lexer", "scan", "indexed")}
 			l := small
@@ -354,6 +365,7 @@ func (p *c13) Check(sc *runner.Scenario, st *runner.Stats, pin string) *runner.V
 			}
 		}
 		for r := 0; r < ex.Reps; r++ {
+			st.Doing(nil, "map_order")
 			wl := permuteMaps(*sc.WL, r)
 			img, res := drive.Image(*sc.Cfg, wl)
 			st.Evaluations++
@@ -405,6 +417,8 @@ func (p *c13) Check(sc *runner.Scenario, st *runner.Stats, pin string) *runner.V
 			st.DistinctCase(fmt.Sprintf("gomaxprocs|%s|%s", gen.CfgClass(*sc.Cfg), gen.Shape(*sc.WL)))
 		}
 		st.Inc("fault.schedule.gomaxprocs_settings")
+	case "free_running":
+		return p.freeRunning(sc, &ex, st, pin)
 	case "interference":
 		// prepared images for reader tasks; solo results
 		imgs := make([][]byte, len(ex.Tasks))
@@ -441,5 +455,74 @@ func (p *c13) Check(sc *runner.Scenario, st *runner.Stats, pin string) *runner.V
 		st.DistinctCase(fmt.Sprintf("interference|%s|%016x", kinds, trace))
 		st.Inc("fault.schedule.interleavings")
 	}
+	return nil
+}
+
+// freeRunning is the one clause whose interleaving the simulator does not own:
+// the tasks run as unsynchronised goroutines on several OS threads (and, in
+// the -race build of the thorough tier, under the race detector). Results are
+// schedule-independent iff the property holds, so a difference is a true
+// positive; it may need several attempts to reproduce, and replay tries up to
+// 50 times.
+func (p *c13) freeRunning(sc *runner.Scenario, ex *c13Extra, st *runner.Stats, pin string) *runner.Violation {
+	old := runtime.GOMAXPROCS(0)
+	runtime.GOMAXPROCS(16)
+	defer runtime.GOMAXPROCS(old)
+	imgs := make([][]byte, len(ex.Tasks))
+	solo := make([][]byte, len(ex.Tasks))
+	for i, tk := range ex.Tasks {
+		if tk.Kind != "writer" {
+			img, res := drive.Image(tk.Cfg, tk.WL)
+			if prob := res.FirstProblem(); prob != "" {
+				return viol(sc, "unexpected_error", "task %d: fault-free write failed: %s", i, prob)
+			}
+			imgs[i] = img
+		}
+		s := makeStepper(tk, imgs[i])
+		for s.step() {
+		}
+		solo[i] = s.result()
+		st.Evaluations++
+	}
+	attempts := 6
+	if sc.Tier == "thorough" {
+		attempts = 20
+	}
+	if pin != "" {
+		attempts = 50 // replay / shrinking: the schedule is not owned, try harder
+	}
+	st.InFlight(sc)
+	for a := 0; a < attempts; a++ {
+		st.Doing(nil, "free_running")
+		tasks := make([]stepper, len(ex.Tasks))
+		for i, tk := range ex.Tasks {
+			tasks[i] = makeStepper(tk, imgs[i])
+		}
+		var wg sync.WaitGroup
+		start := make(chan struct{})
+		for i := range tasks {
+			wg.Add(1)
+			go func(s stepper) {
+				defer wg.Done()
+				<-start
+				for s.step() {
+				}
+			}(tasks[i])
+		}
+		close(start)
+		wg.Wait()
+		st.Evaluations++
+		st.Inc("fault.schedule.free_running_rounds")
+		for i, tk := range ex.Tasks {
+			if !bytes.Equal(tasks[i].result(), solo[i]) && pinned(pin, "free_running") {
+				return viol(sc, "free_running", "task %d (%s, %s) produced a different result when run concurrently with %d other instances (attempt %d) than when run alone", i, tk.Kind, gen.CfgClass(tk.Cfg), len(ex.Tasks)-1, a)
+			}
+		}
+	}
+	kinds := ""
+	for _, tk := range ex.Tasks {
+		kinds += tk.Kind[:1]
+	}
+	st.DistinctCase("free_running|" + kinds)
 	return nil
 }
